@@ -54,3 +54,37 @@ PROP["manifest"]["level_text"] += (
     "updateMeta_exports_latest / history_exported_latest (after updateMeta the metadata object's latestTimestamp is Target.ts, and so is the "
     "stored meta/latestTimestamp leaf unless excluded, blocked or stale - the last condition is necessary: exports_latest_leaf_needs_fresh, "
     "replayed against the code by corpus/C15/hist_client_written_latest_leaf.ops).")
+
+# --- unsynchronised-access clause: lockset obligation over the table regenerated from the source (bCONC)
+import gen_lockset          # registers gen_lockset.regen_lockset in vcheck.REGEN_HOOKS (run before the Lean build)
+PROP["modules"] += ["Gnmi.GenProps.LocksetCache"]
+PROP["theorems"] += ["Gnmi.GenProps.LocksetCache." + t for t in [
+    # the clause, decided by the kernel on lean/Gnmi/Gen/LocksetCache.lean
+    "cache_lockset_race_free", "cache_lockset_race_free_all", "stream_vs_refresh_race_free",
+    "table_well_grouped", "table_race_free_all", "raceFreeG_sound", "raceFree_sound", "raceFree_complete",
+    # the table is the one the clause is about
+    "table_covers_clause", "extractor_complete", "entry_points_present",
+    # the obligation fails on the historical breaks and does not take two RLocks for exclusion
+    "d14_shape_race", "d14_shape_rejected", "seed2_shape_race", "seed2_shape_rejected", "rlock_does_not_exclude",
+    # lock order, callbacks
+    "lock_order", "client_callbacks_outside_target_locks"]]
+PROP["pre"].append(gen_lockset.lockset_step)
+PROP["trusted_base"] = PROP["trusted_base"] + [
+    "lockset: the extractor go/vlockset (go/ast + go/types walk of cache, metadata, latency: must-held mutexes per access incl. defer "
+    "stacks run LIFO and callers' mutexes; documented in its header) produces a table that over-approximates the accesses and "
+    "under-approximates the mutexes held; mutexes and fields are identified by type, not by object",
+]
+PROP["assumptions"] = PROP["assumptions"] + [
+    "lockset A0: constructors, Option closures and Cache.SetClient run before the object is shared (SetClient: documented "
+    "'prior to sending any updates'); A1 (only for cache_lockset_race_free, not for cache_lockset_race_free_all): the target "
+    "manager runs one session per target, so two update-stream accesses to ONE target are not concurrent",
+    "lockset: one Target owns its Metadata, Latency and windows exclusively (created in Cache.Add, never shared); what other "
+    "packages do with the pointers handed out (ctree leaves, client callback, *Metadata beyond its methods) is outside the table",
+]
+PROP["manifest"]["level_text"] += (
+    " Unsynchronised-access clause: Lean 4 theorem cache_lockset_race_free (and the stronger cache_lockset_race_free_all), decided by "
+    "the kernel over the access table lean/Gnmi/Gen/LocksetCache.lean that go/vlockset regenerates from cache.go, metadata.go and "
+    "latency.go before every Lean build: any two accesses to one struct field, one of them a write, that may run concurrently "
+    "(update stream vs UpdateMetadata/UpdateSize, refresh vs refresh, readers of Metadata(), Add/Remove, any other exported entry) "
+    "hold a common mutex, at least one of them exclusively; the obligation is shown to fail on the D14 shape and on seeded change "
+    "c15_seed2; lock_order: the four mutexes are only ever nested in one order.")
